@@ -15,3 +15,8 @@ Check flags_spec : forall t b, b < 15 -> (N.testbit (flags t) b = true <-> occur
 Theorem flags_masked_spec : forall t b, N.testbit (flags_masked t) b = true <-> (b < 15 /\ occurs b t).
 Proof. exact flags_masked_spec_lemma. Qed.
 Check flags_masked_spec : forall t b, N.testbit (flags_masked t) b = true <-> (b < 15 /\ occurs b t).
+
+(** Shifting a type across binders does not change its flags. *)
+Theorem flags_shift_invariant : forall t n k, flags (Ir.Fold.shift_in n k t) = flags t.
+Proof. exact flags_shift_in. Qed.
+Check flags_shift_invariant : forall t n k, flags (Ir.Fold.shift_in n k t) = flags t.
